@@ -142,6 +142,7 @@ type env struct {
 	slotLn int
 	dlOff  int
 	gated  map[int]bool
+	trig   map[[2]int]bool
 }
 
 func (e *env) emit(ev drv.Step) {
@@ -311,7 +312,7 @@ func runOne(t *testing.T, tr *drv.Tracer, sid int, sched []drv.Step) bool {
 	n := drv.Num(cfg["n"])
 	e := &env{t: t, tr: tr, ctx: ctx, t0: time.Now(), n: n, idxOf: map[string]int{}, sends: map[[3]int]*sendRec{},
 		props: map[int]map[int]*pbv1.PriorityResult{}, dec: map[int]*pbv1.PriorityResult{}, decBy: map[int]int{},
-		slotLn: drv.Num(cfg["slotlen"]), dlOff: drv.Num(cfg["dloff"]), gated: map[int]bool{}}
+		slotLn: drv.Num(cfg["slotlen"]), dlOff: drv.Num(cfg["dloff"]), gated: map[int]bool{}, trig: map[[2]int]bool{}}
 	for _, s := range cfg["slots"].([]any) {
 		e.gated[drv.Num(s)] = true
 	}
@@ -465,9 +466,10 @@ func (e *env) step(st drv.Step) {
 	case "Trigger", "Prioritise":
 		i, s := drv.Num(st["i"]), drv.Num(st["s"])
 		nd := e.nodes[i]
-		if !nd.real {
-			return
+		if !nd.real || e.trig[[2]int{i, s}] {
+			return // one instance per node and duty (a second Prioritise for a running duty is outside the model)
 		}
+		e.trig[[2]int{i, s}] = true
 		e.emit(st)
 		go func() {
 			var err error
